@@ -179,8 +179,8 @@ pub async fn peek(mem: &InMemorySessionStore, id: &SessionId) -> Result<Option<M
             let mut m = Map::new();
             for (k, v) in rec.state.iter() {
                 let ki = KEYS.iter().position(|x| *x == k.as_ref()).ok_or_else(|| format!("foreign key {k:?} in store"))?;
-                let vi = v.as_u64().ok_or_else(|| format!("foreign value {v:?} in store"))?;
-                m.insert(ki as u8, vi as u8);
+                let vi = dec_json(v).ok_or_else(|| format!("foreign value {v:?} in store"))?;
+                m.insert(ki as u8, vi);
             }
             Ok(Some(m))
         }
@@ -221,11 +221,26 @@ impl Ret {
     }
 }
 
+/// Value alphabet on the wire: 1 is the JSON number 1, 2 is JSON `null` (a stored `None::<u64>`): a key whose value is null
+/// is PRESENT (`get::<Option<u64>>` = Some(None), `get_raw` = Some(Null)) and must carry over like any other value.
+pub fn enc(v: u8) -> Option<u64> {
+    if v == 2 { None } else { Some(v as u64) }
+}
+pub fn dec(v: Option<u64>) -> u8 {
+    match v {
+        None => 2,
+        Some(n) => n as u8,
+    }
+}
+pub fn dec_json(v: &serde_json::Value) -> Option<u8> {
+    if v.is_null() { Some(2) } else { v.as_u64().map(|n| n as u8) }
+}
+
 fn val_of(v: Option<serde_json::Value>) -> Ret {
     match v {
         None => Ret::Val(None),
-        Some(v) => match v.as_u64() {
-            Some(n) => Ret::Val(Some(n as u8)),
+        Some(v) => match dec_json(&v) {
+            Some(n) => Ret::Val(Some(n)),
             None => Ret::Err(format!("non-numeric value {v}")),
         },
     }
@@ -262,12 +277,12 @@ pub fn error_shape<E: std::fmt::Debug>(e: &E) -> String {
 pub async fn exec_op(session: &mut Session<'_>, op: Op) -> Ret {
     let fut = async {
         match op {
-            Op::SInsert(k, v) => match session.insert(KEYS[k as usize], v as u64).await {
+            Op::SInsert(k, v) => match session.insert(KEYS[k as usize], enc(v)).await {
                 Ok(old) => val_of(old),
                 Err(e) => Ret::Err(error_shape(&e)),
             },
-            Op::SRemove(k) => match session.remove::<u64>(KEYS[k as usize]).await {
-                Ok(old) => Ret::Val(old.map(|v| v as u8)),
+            Op::SRemove(k) => match session.remove::<Option<u64>>(KEYS[k as usize]).await {
+                Ok(old) => Ret::Val(old.map(dec)),
                 Err(e) => Ret::Err(error_shape(&e)),
             },
             Op::SClear => match session.clear().await {
@@ -278,8 +293,8 @@ pub async fn exec_op(session: &mut Session<'_>, op: Op) -> Ret {
                 session.delete();
                 Ret::Unit
             }
-            Op::SGet(k) => match session.get::<u64>(KEYS[k as usize]).await {
-                Ok(v) => Ret::Val(v.map(|v| v as u8)),
+            Op::SGet(k) => match session.get::<Option<u64>>(KEYS[k as usize]).await {
+                Ok(v) => Ret::Val(v.map(dec)),
                 Err(e) => Ret::Err(error_shape(&e)),
             },
             Op::ForceLoad => match session.force_load().await {
@@ -298,20 +313,20 @@ pub async fn exec_op(session: &mut Session<'_>, op: Op) -> Ret {
                 session.invalidate();
                 Ret::Unit
             }
-            Op::CInsert(k, v) => match session.client_mut().insert(KEYS[k as usize], v as u64) {
+            Op::CInsert(k, v) => match session.client_mut().insert(KEYS[k as usize], enc(v)) {
                 Ok(old) => val_of(old),
                 Err(e) => Ret::Err(error_shape(&e)),
             },
-            Op::CRemove(k) => match session.client_mut().remove::<u64>(KEYS[k as usize]) {
-                Ok(old) => Ret::Val(old.map(|v| v as u8)),
+            Op::CRemove(k) => match session.client_mut().remove::<Option<u64>>(KEYS[k as usize]) {
+                Ok(old) => Ret::Val(old.map(dec)),
                 Err(e) => Ret::Err(error_shape(&e)),
             },
             Op::CClear => {
                 session.client_mut().clear();
                 Ret::Unit
             }
-            Op::CGet(k) => match session.client().get::<u64>(KEYS[k as usize]) {
-                Ok(v) => Ret::Val(v.map(|v| v as u8)),
+            Op::CGet(k) => match session.client().get::<Option<u64>>(KEYS[k as usize]) {
+                Ok(v) => Ret::Val(v.map(dec)),
                 Err(e) => Ret::Err(error_shape(&e)),
             },
         }
@@ -325,7 +340,7 @@ pub async fn exec_op(session: &mut Session<'_>, op: Op) -> Ret {
 /// Side-effect-free client-side observations: `([get(a), get(b)], is_empty, is_invalidated)`.
 pub fn client_view(session: &Session<'_>) -> ([Option<u8>; 2], bool, bool) {
     let c = session.client();
-    let g = |k: usize| c.get::<u64>(KEYS[k]).ok().flatten().map(|v| v as u8);
+    let g = |k: usize| c.get::<Option<u64>>(KEYS[k]).ok().flatten().map(dec);
     ([g(0), g(1)], c.is_empty(), session.is_invalidated())
 }
 
@@ -382,9 +397,9 @@ impl DebugView {
 
 const ENTRY_PATTERNS: [(&str, u8, u8); 4] = [
     ("\"a\": Number(1)", 0, 1),
-    ("\"a\": Number(2)", 0, 2),
+    ("\"a\": Null", 0, 2),
     ("\"b\": Number(1)", 1, 1),
-    ("\"b\": Number(2)", 1, 2),
+    ("\"b\": Null", 1, 2),
 ];
 
 fn map_segment(seg: &str) -> (String, Map) {
@@ -550,10 +565,10 @@ pub fn classify_cookie(c: Option<&ResponseCookie<'_>>) -> RawCookie {
     if let Some(obj) = v.get("1") {
         let Some(obj) = obj.as_object() else { return RawCookie::Garbled(c.value().to_string()) };
         for (k, val) in obj {
-            let (Some(ki), Some(vi)) = (KEYS.iter().position(|x| x == k), val.as_u64()) else {
+            let (Some(ki), Some(vi)) = (KEYS.iter().position(|x| x == k), dec_json(val)) else {
                 return RawCookie::Garbled(c.value().to_string());
             };
-            client.insert(ki as u8, vi as u8);
+            client.insert(ki as u8, vi);
         }
     }
     RawCookie::Set { id: id.to_ascii_lowercase(), client }
